@@ -345,3 +345,38 @@ Theorem C16_text_roundtrip_utf32_refuted_pinned : exists ss bs d' o,
   decode_seq Utf32 (dinit Utf32) bs = DOk d' o /\ o <> concat ss.
 Proof. exact text_roundtrip_utf32_refuted_pinned. Qed.
 Print Assumptions C16_text_roundtrip_utf32_refuted_pinned.
+
+(* ---- tie T: the three receive methods as tools/translate_buffered.py regenerates them from
+        src/anyio/streams/buffered.py on every run (pure/BufGen.v, language and interpreter pure/BufImp.v), interpreted,
+        ARE the model: same state, same result, for every state, argument, cancellation point and feed list; hence the
+        machine that runs the regenerated code equals Buffered.step op by op, and the conservation clause holds for
+        runs of the regenerated code.  (The arrival log is a history variable of the model and is not part of this tie.)
+        Trusted here: the translator's tables (Python construct -> BufImp atom, tools/translate_buffered.py), the
+        reading of an await of the wrapped stream's receive() as BufImp.fetch (cancellation, data fed by other tasks
+        during the wait, Buffered.pull), `self._closed` read as False (aclose() is outside the C16 model). ---- *)
+From AV Require Import BufImp BufGen BufGenEq.
+
+Theorem C16_tie_receive : forall (s : st) (n : Z) (c : nat) (f : list (list Z)),
+  result (exec (fuel_of s) gen_receive (env0 n [] c f) s) = Some (fst (do_receive false c s n f)).
+Proof. exact tie_receive. Qed.
+Print Assumptions C16_tie_receive.
+
+Theorem C16_tie_exactly : forall (s : st) (n : Z) (c : nat) (f : list (list Z)),
+  result (exec (fuel_of s) gen_exactly (env0 n [] c f) s) = Some (fst (do_exactly false c s n f)).
+Proof. exact tie_exactly. Qed.
+Print Assumptions C16_tie_exactly.
+
+Theorem C16_tie_until : forall (s : st) (d : list Z) (m : Z) (c : nat) (f : list (list Z)),
+  result (exec (fuel_of s) gen_until (env0 m d c f) s) = Some (fst (until_loop false (fuel_of s) c s d m 0 f)).
+Proof. exact tie_until. Qed.
+Print Assumptions C16_tie_until.
+
+Theorem C16_tie_machine : forall (s : st) (o : op), gstep gen_progs s o = step s o.
+Proof. exact gstep_eq_step. Qed.
+Print Assumptions C16_tie_machine.
+
+Theorem C16_tie_gen_conservation : forall (ops : list op) (s : st),
+  let s' := final (gstep gen_progs) s ops in
+  buf s ++ arrived_run s ops = consumed_run s ops ++ buf s'.
+Proof. intros ops s. cbv zeta. rewrite grun_eq_run. apply buf_conservation. Qed.
+Print Assumptions C16_tie_gen_conservation.
